@@ -33,9 +33,13 @@ def check_backend(run, f, cfg, adt):
             return
     try:
         chain = S.escape_chain(f, esc)
+        # the unescape side must be extractable too, else both are interpreted
+        try:
+            S.replace_chain(f, une)
+        except Anchor:
+            S.char_loop(f, une)
     except Anchor as e:
-        run.anchor("C17.R1", "%s:escape" % short, str(e), cfg)
-        return
+        return check_backend_interpreted(run, f, cfg, short, esc, une, str(e))
     sp = f.fns[esc]["sp"]
     hom, why = S.chain_is_homomorphism(chain)
     # is unescape a replace chain (doubling form) or a per-character loop?
@@ -75,6 +79,48 @@ def check_backend(run, f, cfg, adt):
         run.ob("C17.R2", "%s:char:%s" % (short, "U+%04X" % ord(c)), st == init and out == c,
                "%s: unescape decodes the image of %s back to the character and returns to the plain state" % (short, cls),
                sp=f.fns[une]["sp"], cfg=cfg, detail={"image": img, "decoded": out, "state": st}, trivial=(c not in h))
+
+
+def check_backend_interpreted(run, f, cfg, short, esc, une, why):
+    """escape / unescape whose bodies are not of the extractable forms: both are interpreted on every string up to length 3
+    over the alphabet of their own character literals (plus representatives of all other characters)"""
+    try:
+        E = S.InterpStrFn(f, esc)
+        U = S.InterpStrFn(f, une)
+        alphabet = E.alphabet(extra=S.literal_chars(f, une))
+        m, problems = E.per_char(alphabet)
+    except Anchor as e2:
+        run.anchor("C17.R1", "%s:escape" % short, "%s; %s" % (why, e2), cfg)
+        return
+    run.notes.append("%s: escape/unescape pair decided by interpretation of the bodies (%s)" % (short, why))
+    run.ob("C17.R1", "%s:homomorphism" % short, not problems,
+           "%s: escape_string is one simultaneous per-character substitution (tabulated on all strings of length <= 2 over %d characters)%s" % (
+               short, len(alphabet), "" if not problems else ": " + "; ".join(problems)), sp=f.fns[esc]["sp"], cfg=cfg)
+    try:
+        for c in alphabet:
+            img = m[c]
+            out = U(img)
+            cls = "mapped %r -> %r" % (c, img) if img != c else "unmapped %r" % c
+            run.ob("C17.R2", "%s:char:%s" % (short, "U+%04X" % ord(c)), out == c,
+                   "%s: unescape decodes the image of %s back to the character" % (short, cls), sp=f.fns[une]["sp"], cfg=cfg,
+                   detail={"image": img, "decoded": out}, trivial=(img == c))
+        mapped = [c for c in alphabet if m[c] != c]
+        images = sorted(set(ch for c in mapped for ch in m[c] if ch in alphabet and ch not in mapped))
+        # every pair over the whole alphabet; triples over a selection with one member of every class: mapped characters,
+        # characters that occur in images, an ordinary ASCII and a multi-byte character
+        hot = (mapped[:3] + [c for c in ("\\", "'") if c in mapped and c not in mapped[:3]] + images[:2] + ["a", "\u00e9"])
+        bad = []
+        from itertools import product
+        for tup in list(product(alphabet, repeat=2)) + list(product(hot, repeat=3)):
+            s_ = "".join(tup)
+            if U(E(s_)) != s_:
+                bad.append(s_)
+        run.ob("C17.R2", "%s:strings" % short, not bad,
+               "%s: unescape(escape(s)) == s for every string of length 2 over the %d-character alphabet and of length 3 over %r%s" % (
+                   short, len(alphabet), hot, "" if not bad else " - EXCEPT %r" % bad[:5]),
+               sp=f.fns[une]["sp"], cfg=cfg)
+    except Anchor as e3:
+        run.anchor("C17.R2", "%s:unescape" % short, str(e3), cfg)
 
 
 def check(run):
